@@ -140,6 +140,10 @@ def build_fgg(rec) -> Tuple[FGG, Dict[str, Any]]:
     dense = {}
     for name, spec in rec["factors"].items():
         el = fgg.get_edge_label(name)
+        if "constant" in spec:                 # a ConstantFactor (sum_product does not evaluate these: round trip only)
+            from fggs.factors import ConstantFactor
+            fgg.add_factor(el, ConstantFactor([fgg.domains[nl.name] for nl in el.type], num(spec["constant"])))
+            continue
         w, d = make_weights(spec)
         dense[name] = d
         fgg.add_factor(el, FiniteFactor([fgg.domains[nl.name] for nl in el.type], w))
@@ -286,6 +290,12 @@ def check_roundtrip(case, col: Collector) -> bool:
         f2 = fgg2.factors.get(name)
         if f2 is None:
             continue
+        if "constant" in rec["factors"][name]:
+            f1 = fgg.factors[name]
+            if type(f2) is not type(f1) or list(f2.domains) != list(f1.domains) or not (f2.weight == f1.weight) or not (f2 == f1):
+                bad("factors", "constant-factor-differs", f"constant factor of {name}: weight {getattr(f2, 'weight', None)!r} "
+                                                          f"({type(f2).__name__}) after the round trip, {f1.weight!r} before")
+            continue
         if not isinstance(f2, FiniteFactor):
             bad("factors", "factor-class", name)
             continue
@@ -329,8 +339,8 @@ def check_roundtrip(case, col: Collector) -> bool:
         got_e = sorted(v["id"] for v in jr["rhs"]["edges"] if "id" in v)
         if want_e != got_e:
             bad("ids", "explicit-edge-ids-in-json", f"{got_e} vs {want_e}")
-    # sum-product equal (non-recursive grammars whose terminals all carry a factor)
-    if not recursive(rec) and all(t.name in fgg.factors for t in fgg.terminals()):
+    # sum-product equal (non-recursive grammars whose terminals all carry a finite factor)
+    if not recursive(rec) and all(t.name in fgg.factors and isinstance(fgg.factors[t.name], FiniteFactor) for t in fgg.terminals()):
         try:
             z1 = fggs.sum_product(fgg)
             z2 = fggs.sum_product(fgg2)
@@ -477,6 +487,14 @@ def roundtrip_cases(ctx: Ctx) -> List[dict]:
             rec["factors"] = factors(terms, 0, rng)
             cases.append({"kind": "roundtrip", "fgg": rec,
                           "tags": ["nonrec", mode, "labels-no-rule-uses" + ("+factor" if with_factor else "")]})
+    # constant factors (function "constant"): weights 0, 1, negative, fractional, infinite
+    g = grammars()["nonrec"]
+    for mode in ("explicit", "implicit"):
+        for ws in ((0.0, 2.5, 1.0), (-1.5, 0.0, "inf"), (1.0, 1.0, 0.0)):
+            rec = id_mode({k: v for k, v in g.items() if k != "terminals"}, mode)
+            rec["domains"] = {k: v for k, v in domains(0).items() if k in "AB"}
+            rec["factors"] = {name: {"constant": w} for name, w in zip(sorted(g["terminals"]), ws)}
+            cases.append({"kind": "roundtrip", "fgg": rec, "tags": ["nonrec", mode, "constant-factors"]})
     return cases
 
 
